@@ -136,3 +136,23 @@ Proof.
   unfold find_diff_big. destruct (negb (Bool.eqb _ _)) eqn:E; [|discriminate]. intros H. injection H as <-.
   apply negb_true_iff, eqb_false_iff in E. exact E.
 Qed.
+
+(** C07 (infer) on one input: the answer (true, true) is given exactly when m forces v *)
+Theorem verdict_infer_holds m v p q : verdict_infer m v p q = VHolds ->
+  ((p && q) = true <-> forall s, beval s m = true -> s v = true).
+Proof.
+  unfold verdict_infer. set (U := nodup Nat.eq_dec (v :: support m)).
+  destruct (find (fun l => beval (lookup l) m && negb (lookup l v)) (asgs U)) as [w|] eqn:Ef.
+  - (* not forced: a witness *)
+    destruct (Bool.eqb (p && q) false) eqn:E; [|discriminate]. intros _. apply eqb_prop in E. rewrite E.
+    split; [discriminate|]. intros Hall. apply find_some in Ef. destruct Ef as [_ Hw].
+    apply andb_true_iff in Hw. destruct Hw as [Hm Hv]. apply negb_true_iff in Hv. rewrite (Hall _ Hm) in Hv. discriminate.
+  - destruct (Bool.eqb (p && q) true) eqn:E; [|discriminate]. intros _. apply eqb_prop in E. rewrite E.
+    split; [|reflexivity]. intros _ s Hs.
+    destruct (asgs_cover U s) as (l & Hin & Hl).
+    pose proof (find_none_all _ _ Ef l Hin) as Hp. cbn beta in Hp.
+    assert (Em : beval (lookup l) m = beval s m).
+    { apply beval_agree_support. intros x Hx. apply Hl. unfold U. apply nodup_In. right. exact Hx. }
+    assert (Ev : lookup l v = s v) by (apply Hl; unfold U; apply nodup_In; left; reflexivity).
+    rewrite Em, Hs, Ev in Hp. cbn in Hp. apply negb_false_iff in Hp. exact Hp.
+Qed.
